@@ -474,6 +474,8 @@ def run_case(draws, prop, tier="quick"):
                     res.count("loop_unhandled", out.loop_info["unhandled"])
                     res.count("executor_jobs",
                               out.loop_info["executor_jobs"])
+                    res.count("probe:overlapping_executor_jobs",
+                              out.loop_info.get("overlapping_jobs", 0))
                 for k, v in out.ctx.stats.items():
                     res.count("fired:" + k, v)
                 sreq["runs"].append({
